@@ -139,7 +139,7 @@ def handle (j : Json) : Json :=
                     ("composeAgree", Json.bool composeAgree)]),
     ("spec", jobj [("accept", Json.bool (acceptB o op env)),
                    ("failing", jstrs ((failingSpec o op env).map partStr))]),
-    ("excl", jstrs (if exclNilAuthEmptyReq env op then ["NilAuthEmptyRequirement"] else [])),
+    ("excl", Json.arr #[]),
     ("branches", jstrs branches)]
 
 end KinModel.Drv.C07
